@@ -19,7 +19,7 @@ EXPLANATION = (
     "name - R8 - are followed to their consumer).")
 ASSUMPTIONS = ["program_options::variables_map::count(k) > 0 iff option k was given", "${ENV:default} placeholders in the default ini are expanded by the ini module from the environment"]
 THOROUGH_CONFIGS = [["-UNDEBUG", "-DPIKA_DEBUG"]]
-FLOORS = {"C16.R11": 1, "C16.R1": 11, "C16.R2": 10, "C16.R3": 8, "C16.R4": 3, "C16.R6": 1, "C16.R7": 1, "C16.R8": 1, "C16.R9": 8, "C16.R10": 1}
+FLOORS = {"C16.R11": 1, "C16.R12": 8, "C16.R1": 11, "C16.R2": 10, "C16.R3": 8, "C16.R4": 3, "C16.R6": 1, "C16.R7": 1, "C16.R8": 1, "C16.R9": 8, "C16.R10": 1}
 
 SETTINGS = [  # (command line option, ini key, environment variable, handler)
     ("pika:threads", "pika.os_threads", "PIKA_THREADS", "handle_num_threads"),
@@ -67,6 +67,10 @@ def run(rep, tier):
              "applies the same lines last-wins.  add() therefore lets a later entry replace an earlier one for the same key (operator[] / insert_or_assign), never "
              "first-wins (insert / emplace / try_emplace) - otherwise the environment's --pika:ini=pika.os_threads=N beats the command line's")
     manage_config_rules(rep)
+    rep.rule("C16.R12", "K7 (evaluated with modelled look-ups): handle_num_threads resolves the worker count to the command line's --pika:threads when given, otherwise the "
+             "configured pika.os_threads (environment / ini / default); the keywords 'all' and 'cores' stand for the number of usable PUs resp. cores, anything else for its "
+             "number; 0 is refused; pika.force_min_os_threads is a lower bound")
+    num_threads_table(rep)
     rep.rule("C16.R10", "K8 (conflict checks vs. defaults): the check that refuses pu-step / pu-offset / affinity together with a binding description is switched off under the built-in "
              "default of pika.bind (a valid command-line option must not be rejected because of another setting's default)")
     rep.rule("C16.R9", "K8 (environment reach): every handler's fallback reads the runtime configuration's entry for its key (where ${ENV:default} is expanded) - itself or through "
@@ -694,3 +698,74 @@ def manage_config_rules(rep):
                 rep.bad("C16.R11", fn, loc_of(e), "first-entry-wins", "manage_config::add stores entries with config_.%s, which keeps the FIRST value of a key: the --pika:ini lines are added in the "
                         "order environment (PIKA_COMMANDLINE_OPTIONS) -> command line, so for every setting the handlers read from this map (pika.os_threads, pika.cores, "
                         "pika.scheduler, pika.bind, ...) the environment's entry beats the command line's, while the ini tree applies the same lines last-wins" % how)
+
+
+def num_threads_table(rep):
+    from engine.kinds import interp, eval_tree, Unknown
+    H = facts(rep, lib("command_line_handling", "src/command_line_handling.cpp"), [r"handle_num_threads$"])
+    fs = [f for f in H.find(r"handle_num_threads$") if f.parent == -1]
+    if len(fs) != 1:
+        raise AnalysisBroken("handle_num_threads not found")
+    fn = fs[0]
+    ALL, CORES = 16, 8
+
+    def model(cmdline, configured, force_min):
+        def h(e, env):
+            cs = callee_short(e)
+            t = T(e)
+            args = e.get("args") or []
+            if cs == "get_number_of_default_threads":
+                return ALL
+            if cs == "get_number_of_default_cores":
+                return CORES
+            if cs == "count" and args and "pika:threads" in T(args[0]):
+                return 1 if cmdline is not None else 0
+            if cs == "as" and "pika:threads" in t:
+                if cmdline is None:
+                    raise Unknown(t)
+                return cmdline
+            if cs in ("get_value", "get_entry") and len(args) >= 2:
+                key = T(args[0]).strip('"')
+                if key == "pika.os_threads" and configured is not None:
+                    d = eval_tree(args[1], env)
+                    return configured if isinstance(d, str) else (int(configured) if str(configured).isdigit() else d)
+                if key == "pika.force_min_os_threads" and force_min is not None:
+                    return force_min
+                return eval_tree(args[1], env)
+            if cs == "to_string" and args:
+                return str(eval_tree(args[0], env))
+            if cs == "from_string" and args:
+                v = eval_tree(args[0], env)
+                if isinstance(v, str) and v.isdigit():
+                    return int(v)
+                if isinstance(v, str):
+                    return "<conversion of '%s' to a number fails>" % v
+                raise Unknown(t)
+            if e.get("op") == "[]" or cs == "operator[]":
+                raise Unknown(t)
+            raise Unknown(t)
+        return h
+    table = [("--pika:threads=all", "all", None, None, ALL), ("--pika:threads=cores", "cores", None, None, CORES), ("--pika:threads=5", "5", None, None, 5),
+             ("--pika:threads=5 over pika.os_threads=3", "5", "3", None, 5), ("pika.os_threads=3, no option", None, "3", None, 3),
+             ("pika.os_threads=cores, no option", None, "cores", None, CORES), ("pika.os_threads=all, no option", None, "all", None, ALL),
+             ("nothing given", None, None, None, ALL), ("--pika:threads=2 with pika.force_min_os_threads=6", "2", None, 6, 6), ("--pika:threads=0", "0", None, None, "throw")]
+    for name, cmd, conf, fmin, want in table:
+        env = {"$call": model(cmd, conf, fmin)}
+        res = interp(fn, env, unknown_both=False)
+        outs = set()
+        for end, e_, evs, ev in res:
+            if end == "return" and ev is not None and ev.get("e") is not None:
+                try:
+                    outs.add(eval_tree(ev["e"], e_))
+                except Unknown:
+                    outs.add("?")
+            elif end in ("throw", "noreturn"):
+                outs.add("throw")
+            else:
+                outs.add("?" + end)
+        if outs == {want}:
+            rep.ok("C16.R12", fn, "%s -> %s" % (name, want))
+        elif any(str(o).startswith("?") for o in outs):
+            raise AnalysisBroken("handle_num_threads: scenario '%s' not decided (%s)" % (name, sorted(map(str, outs))))
+        else:
+            rep.bad("C16.R12", fn, fn.loc, "thread-count:" + name.replace(" ", "-"), "handle_num_threads resolves '%s' (16 usable PUs on 8 cores) to %s, expected %s" % (name, sorted(map(str, outs)), want))
